@@ -121,7 +121,12 @@ func GenCont(r *simrt.Rand, excl map[string]bool) *ContProg {
 			for k := 0; k < n; k++ {
 				kv = append(kv, g.key()+": "+g.val())
 			}
-			p.Init = append(p.Init, "{"+strings.Join(kv, ", ")+"}")
+			if r.Chance(1, 10) {
+				// beyond any small-table threshold (the five usual keys k0..k4 are among them)
+				p.Init = append(p.Init, fmt.Sprintf("{(\"k%%d\" %% _i): _i %% 7 for _i in range(%d)}", []int{9, 17, 33, 65, 130, 260}[r.Intn(6)]))
+			} else {
+				p.Init = append(p.Init, "{"+strings.Join(kv, ", ")+"}")
+			}
 		default:
 			g.typ[i] = "set"
 			n := r.Intn(3)
@@ -129,7 +134,9 @@ func GenCont(r *simrt.Rand, excl map[string]bool) *ContProg {
 			for k := 0; k < n; k++ {
 				e = append(e, g.scalar(false))
 			}
-			if n == 0 {
+			if r.Chance(1, 10) {
+				p.Init = append(p.Init, fmt.Sprintf("set(range(%d))", []int{9, 17, 33, 65, 130, 260}[r.Intn(6)]))
+			} else if n == 0 {
 				p.Init = append(p.Init, "set()")
 			} else {
 				p.Init = append(p.Init, "{"+strings.Join(e, ", ")+"}")
@@ -137,6 +144,9 @@ func GenCont(r *simrt.Rand, excl map[string]bool) *ContProg {
 		}
 	}
 	nops := 2 + r.Intn(11*Scale)
+	if r.Chance(1, 12) {
+		nops = 20 + r.Intn(30) // long histories
+	}
 	for len(p.Ops) < nops {
 		g.usedMixed = false
 		op, ok := g.op(mixed)
@@ -441,7 +451,7 @@ func (g *cgen) dictOp() (ContOp, bool) {
 	yi, _ := g.of("dict")
 	y := a(yi)
 	z := r.Intn(nAlias)
-	switch r.Intn(17) {
+	switch r.Intn(18) {
 	case 0, 1, 2:
 		return st("dict.setitem", fmt.Sprintf("%s[%s] = %s", x, g.key(), g.val()))
 	case 3:
@@ -480,6 +490,16 @@ func (g *cgen) dictOp() (ContOp, bool) {
 			return st("dict.update|kwargs", fmt.Sprintf("%s.update(k%d=%s)", x, r.Intn(5), g.val()))
 		}
 	case 15:
+		// the embedder calls a function through py.Call with this very dict as kwargs
+		if r.Chance(1, 2) {
+			return st("dict.hcall-mutates-kw", fmt.Sprintf("def _kwf(**kw):\n    kw[\"seen\"] = len(kw)\n    return sorted(kw.keys())\nlog(\"hcall\", hcall(_kwf, (), %s))", x))
+		}
+		if z == xi {
+			return ContOp{}, false
+		}
+		g.typ[z] = "dict"
+		return st("dict.hcall-returns-kw", fmt.Sprintf("def _kwr(**kw):\n    return kw\n%s = hcall(_kwr, (), %s)\n%s[\"ret\"] = 1", a(z), x, a(z)))
+	case 16:
 		return st("dict.for-overwrite", fmt.Sprintf("for _k in %s:\n    %s[_k] = %s[_k] + 10", x, x, x))
 	default:
 		return ex("dict.items-sorted", fmt.Sprintf("sorted([_k + \"=\" + str(_v) for _k, _v in %s.items()])", x))
@@ -543,7 +563,7 @@ func (g *cgen) setOp(mixed bool) (ContOp, bool) {
 
 func (p *ContProg) Render() string {
 	var b strings.Builder
-	b.WriteString("from simlog import log, exc_name\nit0 = iter([])\nit1 = iter([])\n")
+	b.WriteString("from simlog import log, exc_name, hcall\nit0 = iter([])\nit1 = iter([])\n")
 	for i, e := range p.Init {
 		fmt.Fprintf(&b, "a%d = %s\n", i, e)
 	}
